@@ -173,4 +173,16 @@ theorem tcdBLReal_affF (sq : Rat → Rat) (lam : Rat) (t : List Rat) (f : Fld) (
   unfold tcdBLReal
   rw [orientation_affF, tcdBLAtK_affF omegaR lam t _ (by exact h2)]
 
+/-- one triangle covers at most half the sphere: the real Berg–Lüscher angle lies in `(−1/2, 1/2]`
+(in units of the full sphere) whenever `ρ > 0` -/
+theorem omegaR_range (tr : Tri) (hρ : 0 < 2 * (1 + (tr.d12 : ℝ)) * (1 + tr.d23) * (1 + tr.d31)) :
+    -(1 / 2 : ℝ) < omegaR tr ∧ omegaR tr ≤ 1 / 2 := by
+  rw [omegaR_eq_arg tr hρ]
+  have h1 := Complex.neg_pi_lt_arg (⟨1 + (tr.d12 : ℝ) + tr.d23 + tr.d31, (tr.t : ℝ)⟩ : ℂ)
+  have h2 := Complex.arg_le_pi (⟨1 + (tr.d12 : ℝ) + tr.d23 + tr.d31, (tr.t : ℝ)⟩ : ℂ)
+  have hp := Real.pi_pos
+  constructor
+  · rw [lt_div_iff₀ (by positivity)]; nlinarith
+  · rw [div_le_iff₀ (by positivity)]; nlinarith
+
 end DFV.C19
